@@ -912,6 +912,8 @@ class Interp:
                     outs.append(self.sym_args(a))
                 elif e.attr in ("p", "q"):
                     outs.append(Int())
+                elif e.attr.startswith("is_"):
+                    outs.append(Bool())          # sympy assumption flags: True / False / None
                 else:
                     outs.append(Obj("ext:sympy." + e.attr))
             elif isinstance(a, ClsRef):
